@@ -250,6 +250,29 @@ func (n *Net) Pair(id int) PairInfo {
 		Closed: p.closed, Rst: p.rst, Sent: [2]int64{p.dir[0].sent, p.dir[1].sent}}
 }
 
+// PendingBytes sums the bytes written but not yet delivered on the live connections whose link name satisfies f.
+func (n *Net) PendingBytes(f func(link string) bool) int {
+	n.mu.Lock()
+	defer n.mu.Unlock()
+	total := 0
+	for _, p := range n.livePairs {
+		if p.dead || p.rst || !f(p.link) {
+			continue
+		}
+		for _, h := range p.dir {
+			total += h.qb
+		}
+	}
+	return total
+}
+
+// SetSpikeProb changes the probability of latency spikes from now on (0 = the fault has stopped).
+func (n *Net) SetSpikeProb(p float64) {
+	n.mu.Lock()
+	n.cfg.SpikeProb = p
+	n.mu.Unlock()
+}
+
 func (n *Net) NumPairs() int {
 	n.mu.Lock()
 	defer n.mu.Unlock()
